@@ -205,6 +205,8 @@ def main(ctx, cases=None, transforms=None):
                 if sw in table and table[sw] <= tol and proofs_ok and not corr_bad:
                     fid = f_id      # (never attributed when model and code disagree: the model's counterfactuals then say nothing about the code)
                     break
+            if fid is None and proofs_ok and not corr_bad and (r.warn[0] > 0 or tr.warn[0] > 0):
+                fid = "type1-quadrature-unconverged"   # the library itself reported a type-1 quadrature that did not converge
             out.append({"case": r.case, "transformed_case": tr.case, "R": R, "t": t, "transformation": label, "request": pl.fmt_case(r.case), "error": d, "allowed": tol,
                         "attributed_to": fid, "counterfactual_defect": table,
                         "what": "block (LA=%d, LB=%d, ECP L=%d) under a %s differs from the transformed original block by %.3g (allowed %.3g)" % (
